@@ -55,6 +55,11 @@ def run(tier, seed, replay=None):
         exp = ref_run(prog)
         for mode in ('evalstr', 'barestr'):
             cases.append({'id': len(cases), 'cmds': [[mode, '111', text], [mode, '111', PROBE]], 'text': text, 'exp': exp, 'kind': 'shadowing'})
+    for prog in cc.discarded_value_programs():
+        text = cc.render(prog)
+        exp = ref_run(prog)
+        for mode in ('evalstr', 'barestr'):
+            cases.append({'id': len(cases), 'cmds': [[mode, '111', text], [mode, '111', PROBE]], 'text': text, 'exp': exp, 'kind': 'discarded'})
     prog0 = ('do', ('define', 'c', 4), ('let', [('a', ('eval', ('quote', [cc.Sym('define'), cc.Sym('c'), 3])))], [cc.Sym('c')]))
     cases.append({'id': len(cases), 'cmds': [['evalstr', '111', KNOWN_EVAL_DEFINE], ['evalstr', '111', PROBE]], 'text': KNOWN_EVAL_DEFINE,
                   'exp': ('ok I3', '', None), 'kind': 'known-probe', 'sib': len(cases) + 1})
